@@ -41,8 +41,11 @@ ASSUMPTIONS = ["domain (DESIGN 2.11): expressions over + - * /, numeric constant
                "simplification (constant folding: `0*x*y` is the constant 0), and semantically as: a reported-linear expression "
                "is an affine function of the fluent values for every value of the parameters (constant finite differences)",
                "no claim is made for a fluent reported in both sets or in none",
-               "expressions are well-typed (built through the ExpressionManager); a generated case on which the simplifier raises "
-               "(constant division by zero) is kept: both sides answer an error tag"]
+               "expressions are well-typed (built through the ExpressionManager); a generated case on which the simplifier itself "
+               "raises (a constant divided by the constant zero) is kept: both sides answer an error tag; a case on which the TYPE "
+               "CHECKER raises while the simplifier rebuilds a node (a non-constant numerator of bounded type over a divisor "
+               "that simplified to the constant 0, e.g. through a static fluent whose initial value is 0) is skipped, as in C11: "
+               "the simplifier model does not re-type-check rebuilt nodes"]
 MODELLED = ["modelled by hand (tied by correspondence): LinearChecker.walk_* and _sign; reused models: Simplifier (C11), "
             "TypeChecker.get_type (C15); Python sets of FNodes as duplicate-free lists (compared sorted); Problem.get_static_fluents/"
             "initial_value as tables"]
@@ -196,7 +199,7 @@ def make_problem(rng, expr):
 
 
 def cases(rng, tier):
-    n = 700 if tier == "quick" else 25000
+    n = 700 if tier == "quick" else 16000
     maxleaves = 5 if tier == "quick" else 7
     for _ in range(n):
         if rng.random() < 0.3:
@@ -212,13 +215,16 @@ def cases(rng, tier):
 
 
 def usable(payload):
-    """the constructors accept the expression (a divisor whose TYPE is the singleton 0 under a bounded numerator is rejected by
-    the type checker, C15)"""
+    """the constructors accept the expression, and the TYPE CHECKER does not raise while the simplifier rebuilds nodes
+    (ZeroDivisionError: `e / c` whose divisor simplified to the constant 0 under a numerator of bounded type — whether
+    such a node can be built is decided by the type checker's interval arithmetic, C15; the C11 model of the simplifier
+    does not re-type-check rebuilt nodes, same exclusion as in props/C11.py)"""
     try:
-        build(payload)
+        ctx, problem, expr = build(payload)
     except Exception:   # noqa
         return False
-    return True
+    r = run(ctx, problem, expr)
+    return not (r[0] == "err" and r[1].startswith("typecheck:"))
 
 
 # ---------------------------------------------------------------------------------------------------
@@ -270,13 +276,18 @@ def run(ctx, problem, expr):
         return ("ok", bool(lin), set(pos), set(neg))
     except _Timeout:
         return ("err", "timeout")
-    except (ZeroDivisionError, AssertionError) as ex:
+    except (ZeroDivisionError, AssertionError, OverflowError) as ex:
         import traceback
-        frames = [fr.filename.rsplit("/", 1)[-1] for fr in traceback.extract_tb(ex.__traceback__)]
-        if "simplifier.py" in frames:
-            return ("err", "simp:zero-div" if isinstance(ex, ZeroDivisionError) or "walk_div" in
-                    [fr.name for fr in traceback.extract_tb(ex.__traceback__)] else "simp:assertion")
-        return ("err", "type" if "type_checker.py" in frames else "arity")
+        tb = traceback.extract_tb(ex.__traceback__)
+        files = [fr.filename.rsplit("/", 1)[-1] for fr in tb]
+        if "simplifier.py" in files:
+            if "type_checker.py" in files:
+                # the TYPE CHECKER refused a node the simplifier rebuilt (`e / c` whose divisor simplified to the
+                # constant 0 under a numerator of bounded type): interval arithmetic is C15's model, see usable()
+                return ("err", "typecheck:" + type(ex).__name__)
+            return ("err", "simp:zero-div" if isinstance(ex, ZeroDivisionError) or "walk_div" in [fr.name for fr in tb]
+                    else "simp:assertion")
+        return ("err", "type" if "type_checker.py" in files else "arity")
     except Exception as ex:   # noqa
         return ("err", "other:" + type(ex).__name__)
     finally:
